@@ -1,10 +1,10 @@
 #!/bin/sh
 # usage: try_patch.sh <patch.diff> <ID> [<ID>...]   — applies the patch to /repo, runs the checks, reverts
-P=$1; shift
+P=$(realpath "$1"); shift
 cd /repo || exit 9
 if ! git diff --quiet; then echo "/repo has uncommitted changes"; exit 9; fi
-git apply "$P" || { echo "patch does not apply"; exit 9; }
+git apply --3way "$P" 2>/dev/null || git apply "$P" || { echo "patch does not apply"; exit 9; }
 for id in "$@"; do
   (cd /verif && ./check "$id" 2>&1 | grep -E "^VIOLATION|^KNOWN|^CANNOT|^  rule=|^\[" )
 done
-git -C /repo checkout -- . 
+git -C /repo reset -q --hard HEAD
